@@ -162,6 +162,14 @@ class Impl:
         )
         return f"ok {self.instance.num_operations} {self.instance.num_machines} {fmt_bool(valid)}"
 
+    def cmd_redisp(self, ts):
+        """A new Dispatcher on the SAME instance object (the old dispatcher and its observers are dropped)."""
+        self._new_dispatcher()
+        if hasattr(self, "heap"):
+            self.heap, self.kinds, self.trace = [], [], []
+            self.sub_state = []
+        return "ok"
+
     def cmd_filter(self, ts):
         if ts == ["none"]:
             self.filter_tokens = None
